@@ -105,6 +105,16 @@ static KILL_COUNTER: AtomicUsize = AtomicUsize::new(0);
 /// or `VERIF_KILL_AT` (kill the process with SIGKILL at the n-th point) is
 /// set in the environment.
 pub fn kill_point(name: &str) {
+    kill_point_with(name, || { })
+}
+
+/// A numbered kill point with a preparation step.
+///
+/// `prepare` runs only if the process is going to be killed at this point.
+/// It is used to produce the intermediate state of an operation that cannot
+/// be interrupted from the outside, such as a file that has been truncated
+/// but not yet written by `fs::write`.
+pub fn kill_point_with(name: &str, prepare: impl FnOnce()) {
     let config = KILL_CONFIG.get_or_init(|| KillConfig {
         at: std::env::var("VERIF_KILL_AT").ok().and_then(|s| s.parse().ok()),
         log: std::env::var("VERIF_KILL_LOG").ok(),
@@ -121,6 +131,7 @@ pub fn kill_point(name: &str) {
         }
     }
     if config.at == Some(count) {
+        prepare();
         #[cfg(unix)]
         unsafe {
             nix::libc::kill(nix::libc::getpid(), nix::libc::SIGKILL);
